@@ -13,8 +13,10 @@ import os, random, time, concurrent.futures
 from common import *
 import dev
 
-TOML_NAMES = ["a.toml", "0_default.toml", "My Pad.TOML", "x.Toml", "k.toml"]
-OTHER_NAMES = ["notes.txt", "a.toml.bak", "xtoml", "README", "atoml", "cfg.tom", "backup.toml~", "mytoml"]
+TOML_NAMES = ["a.toml", "0_default.toml", "My Pad.TOML", "x.Toml", "k.toml", "8BitDo.SN30.toml", "generic.v2.TOML", ".hidden.toml",
+              "a.toml.toml", "pad-1.2.3.toml", "ö.toml"]
+OTHER_NAMES = ["notes.txt", "a.toml.bak", "xtoml", "README", "atoml", "cfg.tom", "backup.toml~", "mytoml", "x.toml.orig", ".toml.swp",
+               "toml", "a.toml.d"]
 
 
 def hx(s):
@@ -103,10 +105,19 @@ def run(prop, tier, seed, verdict):
     with concurrent.futures.ThreadPoolExecutor(max_workers=shards) as ex:
         for rc, out, glog in ex.map(run_shard, jobs):
             G.update(dev.parse_outputs(out))
+    # the watcher cannot be created at all (descriptor limit reached): evaluated on the implementation alone, in a process
+    # of its own (the limit is per process) — nothing is notified and the stream still ends after cancellation
+    rc_n, out_n, _ = dev.run_go(binary, "case nofd\nw.reset\nw.nofd\n", workdir, "wnofd", timeout=120, test="TestVerifWatch")
+    nofd = [x for x in dev.parse_outputs(out_n).get("nofd", []) if x]
+    nofd_res = nofd[-1] if nofd else "crash"
+    if nofd_res not in ("quiet closed", "skip"):
+        verdict.violation({"clause": "closed-without-watcher", "detail": nofd_res},
+                          {"ops": ["w.nofd"], "what": "with no file descriptor left the file-system watcher cannot be created; the notification stream must "
+                           "stay silent and still end when the application shuts down", "observed": nofd_res, "expected": ["quiet closed"]}, True)
     mtext = "\n".join(l for ops, _, _ in scripts for l in ops) + "\n"
     rc2, mout, merr = dev.run_driver(mtext)
     M = dev.parse_outputs(mout)
-    counts = {"notify": 0, "silent": 0, "stops": 0, "closed": 0}
+    counts = {"notify": 0, "silent": 0, "stops": 0, "closed": 0, "closed-without-watcher": 0 if nofd_res == "skip" else 1}
     kinds = {}
     disag = 0
     first_disag = None
@@ -150,7 +161,8 @@ def run(prop, tier, seed, verdict):
         "evaluations": sum(counts.values()), "distinct_nontrivial": len({tuple(o) for o, _, _ in scripts}),
         "rule": "scripts over a temporary tree with the four watched directories holding TOML files (.toml/.TOML/.Toml) and other files (incl. names "
                 "ending in 'toml' without the dot): in-place append / truncate-and-rewrite / chmod, single and in bursts, consumer reading at once or "
-                "after 30-400 ms, cancellation with nothing pending or while a notification is offered and nobody reads; distinct = distinct scripts",
+                "after 30-400 ms, cancellation with nothing pending or while a notification is offered and nobody reads; one run with the descriptor "
+                "limit at 0 so that the watcher cannot be created (stream silent, ends after cancellation); distinct = distinct scripts",
         "traces_validated_against_impl": len(scripts), "clause_evaluations": counts, "script_kinds": kinds, "disagreements": disag,
         "samples": [{"ops": scripts[0][0], "implementation": G.get("0", [])}],
         "exec_wall_s": round(time.time() - t0, 1),
